@@ -32,7 +32,13 @@ THEOREMS = [
     ("Anytree.Props.C12.dot_lines_pure", "partial"),
     ("Anytree.Props.C12.edgePairs_eq_filter", "partial"),
     ("Anytree.Props.C12.edgeMax_legacy_zero", "witness"),
+    ("Anytree.Props.C13b.pyHex_injective", "full"),
+    ("Anytree.Props.C13b.dot_declared_have_ids", "full"),
+    ("Anytree.Props.C13b.dot_edge_ends_have_ids", "full"),
+    ("Anytree.Props.C13b.dot_unique_names_distinct", "full"),
+    ("Anytree.Props.C13b.dot_unique_names_distinct_of_ids", "full"),
 ]
+MODULES = ["Anytree.Props.C12", "Anytree.Props.C13b"]
 NOT_COVERED = ["the full statement (no edge names an undeclared node) is false of the unchanged code when a child satisfies stop: dot_lines_pure proves the emitted text is Spec.dotLinesD3, edgePairs_eq_filter proves the surplus over the demanded edge set is exactly the edges to stopped children (finding D3); dot_lines_full proves the demanded text when stop is unused"]
 PREDICATE_SPEC = True
 KINDS = ["dot", "unique", "rtg"]
